@@ -11,6 +11,10 @@ class Boom(Exception):
     pass
 
 
+#: what a failing constructor raises (set by the harness): constructor errors come in every class
+FAIL_WITH = [Boom]
+
+
 def _log(self, target, kwargs):
     LOG.append((self, target, dict(kwargs)))
 
@@ -40,14 +44,14 @@ class BoomDeco(PoolDecorator):
     def __init__(self, target, a=0, b=0, *, k=None):
         super().__init__(target)
         _log(self, target, {"a": a, "b": b, "k": k})
-        raise Boom("constructor failed")
+        raise FAIL_WITH[0]("constructor failed")
 
 
 class BoomCtl(Controller):
     def __init__(self, target, a=0, b=0, *, k=None):
         super().__init__(target)
         _log(self, target, {"a": a, "b": b, "k": k})
-        raise Boom("constructor failed")
+        raise FAIL_WITH[0]("constructor failed")
 
 
 class ThePool(RecPool):
@@ -60,7 +64,7 @@ class BoomPool(RecPool):
     def __init__(self, a=0, b=0, *, k=None):
         super().__init__()
         _log(self, None, {"a": a, "b": b, "k": k})
-        raise Boom("constructor failed")
+        raise FAIL_WITH[0]("constructor failed")
 
 
 PLUGINS = {c.__name__: c for c in (Ctl, Deco, EagerDeco, BoomDeco, BoomCtl, ThePool, BoomPool)}
